@@ -31,7 +31,8 @@ def _memo(world):
 
 
 def extra_obligations(world, tier, seed):
-    return _memo(world) + _lemmas()
+    from .C02 import schema_memo_obligations
+    return _memo(world) + _lemmas() + schema_memo_obligations()
 
 
 def bounded_checks(tier, seed):
@@ -39,7 +40,25 @@ def bounded_checks(tier, seed):
     validate() accepts is executed over conforming data and compared with the reference executor
     (props/C02_ref.py); any error, exception or deviation is reported."""
     from .C02 import bounded_checks as b
-    out = b(tier, seed, pid="C13", variants="(0,)")
+    out = b(tier, seed, pid="C13", variants="(0, 6)")
+    # documents whose definitions share names / reuse variables across definitions
+    import json
+    from .common import run_native
+    code = ("import json\nfrom props.C02_ref import search_accepted_documents\n"
+            "print('ACCEPTED ' + json.dumps(search_accepted_documents(), default=str))")
+    rc, outp = run_native(code, timeout=900)
+    res, ok = None, False
+    for line in outp.splitlines():
+        if line.startswith("ACCEPTED "):
+            res, ok = json.loads(line[9:]), True
+    if not ok:
+        raise RuntimeError(outp[-600:])
+    out.append({"id": "C13/bounded/accepted-documents-with-shared-names",
+                "function": "validate (ValidationContext caches keyed by definitions) + execute_sync",
+                "tool": "whatever validate() accepts executes over conforming data without errors, native",
+                "bound": "5 document shapes (operation and fragment with one name, nested fragments, two operations sharing a "
+                         "fragment) x 7 variable definitions x 6 usages x 5 variable mappings",
+                "failed": res is not None, "input": res, "output": outp[-800:]})
     # the field-merge rule is what guarantees that a response key has one shape: its bounded reference
     # comparison (props/C14_ref.py) stands in here too
     from .C14 import bounded_checks as b14
